@@ -157,7 +157,7 @@ class Exec:
         s.axioms += [ForAll([x], And(s.str_len(x) >= 0, s.str_cnt(x) >= 0, s.str_rf(x) >= -1, s.str_rf(x) < s.str_len(x),
                                      (s.str_cnt(x) == 0) == (s.str_rf(x) == -1))) for x in [Int('sx')]]
         s.typ = Function('typ', I, I)   # class id of a reference
-        s.depth = 0; s.cur = '<axioms>'; s.aspect = None
+        s.depth = 0; s.cur = '<axioms>'; s.aspect = None; s.owner_stack = []
         st0 = State({}, Heap(alloc=IntVal(1)), [])
         for e in spec.axiom_exprs: s.axioms.append(s.spec_bool(st0, e))
         s.lemma_axioms = {}
@@ -320,6 +320,11 @@ class Exec:
         s.guard.append(Not(c)); b = s.ev(st, e.orelse); s.guard.pop()
         return SV(If(c, a.t, b.t), a.ty if a.ty != NONE else b.ty)
     def ev_Attribute(s, st, e):
+        if isinstance(e.value, ast.Call) and isinstance(e.value.func, ast.Name) and e.value.func.id == 'super':
+            cur_owner = s.owner_stack[-1] if s.owner_stack else None
+            c, m = s.super_method(cur_owner, e.attr, 'getter') if cur_owner else (None, None)
+            if m is None: raise Unsupported(f'super().{e.attr}')
+            return s.call(st, m, [st.env['self']], owner=c)
         o = s.ev(st, e.value)
         if o.ty.kind != 'ref': raise Unsupported(f'attr on {o.ty}: {ast.unparse(e)}')
         cls = o.ty.arg
@@ -426,6 +431,28 @@ class Exec:
             raise Unsupported(f'call {n}')
         if isinstance(fn, ast.Attribute) and ast.unparse(fn) in s.spec.builtins:
             return s.spec.builtins[ast.unparse(fn)](s, st, [s.ev(st, a) for a in e.args])
+        if isinstance(fn, ast.Call) and isinstance(fn.func, ast.Name) and fn.func.id == 'type' and len(fn.args) == 1:
+            o = s.ev(st, fn.args[0])     # type(x)(...): classes under contract declare __init__ @final, so the static class decides
+            if o.ty.kind == 'ref' and o.ty.arg in s.p.classes:
+                r = s.construct(st, o.ty.arg, e)
+                tf = getattr(s, 'typ', None)
+                if tf is not None: st.defs.append(tf(r.t) == tf(o.t))
+                return r
+            raise Unsupported('type(x)(...)')
+        if isinstance(fn, ast.Attribute) and isinstance(fn.value, ast.Call) and isinstance(fn.value.func, ast.Name) and fn.value.func.id == 'super':
+            cur_owner = s.owner_stack[-1] if s.owner_stack else None
+            if cur_owner is None: raise Unsupported('super() outside a method')
+            c, m = s.super_method(cur_owner, fn.attr)
+            if m is None:
+                if fn.attr == '__init__': return SV(IntVal(0), NONE)     # object.__init__
+                raise Unsupported(f'super().{fn.attr}')
+            kw = {k.arg: s.ev(st, k.value) for k in e.keywords}
+            return s.call(st, m, [st.env['self']] + [s.ev(st, a) for a in e.args], owner=c, kwargs=kw)
+        if isinstance(fn, ast.Attribute) and isinstance(fn.value, ast.Name) and fn.value.id == 'cls' and isinstance(st.env.get('cls'), str):
+            cls = st.env['cls']; c, m = s.p.method(cls, fn.attr)
+            if m is None: raise Unsupported(f'cls.{fn.attr}')
+            kw = {k.arg: s.ev(st, k.value) for k in e.keywords}
+            return s.call(st, m, [s.ev(st, a) for a in e.args], owner=c, cls_arg=cls, kwargs=kw)
         if isinstance(fn, ast.Attribute):
             # str methods
             if fn.attr in ('count', 'rfind') and isinstance(e.args[0], ast.Constant) and e.args[0].value == '\n':
@@ -445,6 +472,9 @@ class Exec:
                 c, m = s.p.method(o.ty.arg, fn.attr)
                 if m is None: raise Unsupported(f'method {o.ty.arg}.{fn.attr}')
                 kw = {k.arg: s.ev(st, k.value) for k in e.keywords}
+                mdecs = [ast.unparse(d) for d in m.decorator_list]
+                if 'classmethod' in mdecs: return s.call(st, m, [s.ev(st, a) for a in e.args], owner=c, kwargs=kw, cls_arg=o.ty.arg)
+                if 'staticmethod' in mdecs: return s.call(st, m, [s.ev(st, a) for a in e.args], owner=c, kwargs=kw)
                 return s.call(st, m, [o] + [s.ev(st, a) for a in e.args], owner=c, kwargs=kw)
         raise Unsupported(f'call {ast.unparse(fn)}')
     def list_method(s, st, o, name, e):
@@ -492,6 +522,15 @@ class Exec:
             if isinstance(fac, ast.Name) and fac.id == 'list': return s.new_list(st, ci.fields[f], IntVal(0), lambda k: IntVal(0))
             return s.ev(st, ast.Call(func=fac, args=[], keywords=[]))
         return s.ev(st, d)
+    def super_method(s, owner, name, kind=None):
+        for c in s.p.mro(owner)[1:]:
+            for m in s.p.classes[c].methods.get(name, []):
+                decs = [ast.unparse(d) for d in m.decorator_list]
+                if kind == 'setter' and not any(d.endswith('.setter') for d in decs): continue
+                if kind == 'getter' and 'property' not in decs: continue
+                if kind is None and any(d.endswith('.setter') for d in decs): continue
+                return c, m
+        return None, None
     def class_id(s, cls): return IntVal(sorted(s.p.classes).index(cls) + 1)
 
     # ------------------------------------------------------------ spec expressions
@@ -543,6 +582,9 @@ class Exec:
         if n == 'allocated':
             v = s.ev(st, e.args[0]); return SV(And(v.t > 0, v.t < st.heap.alloc), BOOL)
         if n == 'old_alloc': return SV(st.old.alloc, INT)
+        if n == 'count_nl': return SV(s.str_cnt(s.ev(st, e.args[0]).t), INT)
+        if n == 'rfind_nl': return SV(s.str_rf(s.ev(st, e.args[0]).t), INT)
+        if n == 'strlen': return SV(s.str_len(s.ev(st, e.args[0]).t), INT)
         if n == 'fresh':
             v = s.ev(st, e.args[0]); return SV(v.t >= st.old.alloc, BOOL)
         if n in s.spec.macros:
@@ -597,6 +639,10 @@ class Exec:
         decs = [ast.unparse(d) for d in fdef.decorator_list]
         env = {}
         if 'classmethod' in decs: env['cls'] = cls_arg or owner; params = params[1:]
+        for a_, d_ in zip(fdef.args.kwonlyargs, fdef.args.kw_defaults):
+            if kwargs and a_.arg in kwargs: env[a_.arg] = kwargs[a_.arg]
+            elif d_ is not None: env[a_.arg] = ('default', d_)
+            else: raise Unsupported(f'missing keyword-only arg {a_.arg}')
         defaults = fdef.args.defaults; nd = len(defaults)
         for i, pn in enumerate(params):
             if i < len(args): env[pn] = args[i]
@@ -636,14 +682,14 @@ class Exec:
         if q == s.cur and c is not None: return s.call_contract(st, q, c, env, rty)   # recursion via contract
         # inline
         if s.depth > 6: raise Unsupported(f'inline depth at {q}')
-        s.depth += 1
+        s.depth += 1; s.owner_stack.append(owner)
         try:
             st2 = st.fork(); st2.env = env
             ctx = Ctx(q); outs = list(s.run(st2, fdef.body, ctx)) ; rets = ctx.returns + [(o, SV(IntVal(0), NONE)) for o in outs]
             for o in ctx.raises: s.oblige(o[0], f'unexpected-raise[{q}]', BoolVal(False))
             if not rets: st.pc.append(BoolVal(False)); return SV(IntVal(0), rty)
             return s.merge_into(st, rets, rty)
-        finally: s.depth -= 1
+        finally: s.depth -= 1; s.owner_stack.pop()
     def merge_into(s, st, rets, rty):
         base = len(st.pc)
         if len(rets) == 1:
@@ -702,11 +748,11 @@ class Exec:
         o, k = Int('o!c'), Int('k!c')
         for key, arr in st.heap.m.items():
             if key[0].startswith('list:') and key[1] == 'elem':
-                if 'ref' in key[0] or 'list' in key[0][5:]: st.defs.append(ForAll([o, k], And(Select(Select(arr, o), k) >= 0, Select(Select(arr, o), k) < st.heap.alloc)))
+                if 'ref' in key[0] or 'list' in key[0][5:]: st.defs.append(ForAll([o, k], Implies(And(0 < o, o < st.heap.alloc), And(Select(Select(arr, o), k) >= 0, Select(Select(arr, o), k) < st.heap.alloc))))
             elif key[0].startswith('list:'): st.defs.append(ForAll([o], Select(arr, o) >= 0))
             elif key[0] in s.p.classes:
                 ty = s.p.field_ty(key[0], key[1])
-                if ty.kind in ('ref', 'list'): st.defs.append(ForAll([o], And(Select(arr, o) >= 0, Select(arr, o) < st.heap.alloc)))
+                if ty.kind in ('ref', 'list'): st.defs.append(ForAll([o], Implies(And(0 < o, o < st.heap.alloc), And(Select(arr, o) >= 0, Select(arr, o) < st.heap.alloc))))
     def parse_mod(s, pat):
         """'Class.f' | 'Class.f@expr' | 'list' | 'list[T]' | 'list[T]@expr' | '*'  ->  (key pattern, receiver source or None)"""
         recv = None
@@ -758,7 +804,8 @@ class Exec:
             s.cur_ctx.raises.append((xs, ('callee', q, [ast.unparse(a) for a in c.raises[0]])))
         snapshot = st.heap.copy()
         s.havoc(st, s.resolve_mods(st2, c.modifies), q.replace('.', '_'))
-        res = SV(fresh('res', sort_of(rty) if rty and rty.kind != 'tuple' else I), rty or NONE)
+        if rty and rty.kind == 'tuple': res = SV(tuple(SV(fresh('res', sort_of(t_)), t_) for t_ in rty.arg), rty)
+        else: res = SV(fresh('res', sort_of(rty) if rty else I), rty or NONE)
         if rty and rty.kind == 'list': res = s.list_sv(st, res.t, rty)
         if rty and rty.kind == 'ref': st.defs.append(And(res.t >= 0, res.t < st.heap.alloc))
         st3 = st.fork(); st3.env = dict(env, result=res); st3.old = snapshot; st3.old_env = dict(env)
@@ -943,6 +990,13 @@ class Exec:
                 except Unsupported: term = None
                 finally: s.specmode = old_mode
             pats = [pat]
+            if pat == 'list' and recv is not None:
+                try:
+                    old_mode, s.specmode = getattr(s, 'specmode', False), True
+                    rt = (probe or st).env['$out'].ty if recv == '$out' else s.ev((probe or st).fork(), ast.parse(recv, mode='eval').body).ty
+                    if rt.kind == 'list': pats = ['list:' + repr(rt)]
+                except Exception: pass
+                finally: s.specmode = old_mode
             if pat.startswith('*.'):
                 f = pat[2:]; pats = [f'{c}.{f}' for c in s.p.classes if f in s.p.classes[c].fields]
                 if recv is not None and probe is not None:
@@ -1120,11 +1174,11 @@ def generate(ex, owner, name, kind=None):
     tv = dict(p.tv, Self=owner)
     st = State({}, Heap(alloc=Int('alloc0')), [])
     decs = [ast.unparse(d) for d in fdef.decorator_list]
-    params = fdef.args.args
+    params = fdef.args.args + fdef.args.kwonlyargs
     for i, a in enumerate(params):
         if i == 0 and owner and 'classmethod' in decs: st.env['cls'] = owner; continue
         ty = Ref(owner) if (i == 0 and owner and 'staticmethod' not in decs) else parse_ann(a.annotation, tv)
-        if a.arg in getattr(c, 'param_types', {}): ty = c.param_types[a.arg]
+        if a.arg in getattr(c, 'local_types', {}): ty = c.local_types[a.arg]
         if ty is None: raise Unsupported(f'parameter {a.arg} of {q} has no type')
         v = Int('v_' + a.arg)
         if ty.kind == 'tuple':
@@ -1152,6 +1206,7 @@ def generate(ex, owner, name, kind=None):
         if ex.uses(r): st.pc.append(ex.spec_bool(st, r))
     ex.oblige(st, 'SMOKE-precondition', BoolVal(False), 'smoke')
     ctx = Ctx(q); ctx.topbody = fdef.body
+    ex.owner_stack = [c_ if owner else None]
     outs = list(ex.run(st, fdef.body, ctx))
     rets = ctx.returns + [(o, SV(IntVal(0), NONE)) for o in outs]
     npath = 0
